@@ -204,7 +204,7 @@ def stripBangS (s : String) : String × Bool :=
 def interactionLine (natomsTab : List (String × Nat)) (kind : Kind) (dih : Bool) (sectRaw : String)
     (line : String) (c : Ctx) : Option Ctx := do
   let toks ← tokenizeS line
-  let (sect, delete) := if dih then (sectRaw, false) else stripBangS sectRaw
+  let (sect, delete) := stripBangS sectRaw
   let c1 ← if isMeta toks then (if metaOk toks then some c else none) else do
     if kind != .link && delete then none
     let (atoms, rest) ← atomsWithAttrs (natomsOf natomsTab sect) true toks
@@ -250,7 +250,7 @@ def edgeLine (kind : Kind) (negate : Bool) (line : String) (c : Ctx) : Option Ct
   match keys with
   | [k0, k1] =>
     if negate then pure c
-    else if kind = .modification && !(c.hasNode k0 && c.hasNode k1) then none
+    else if (kind = .modification || kind = .block) && !(c.hasNode k0 && c.hasNode k1) then none
     else
       let c1 := if c.hasNode k0 then c else c.setNode k0 []
       pure (if c1.hasNode k1 then c1 else c1.setNode k1 [])
